@@ -108,16 +108,16 @@ PROPS = {
     "C03": {
         "module": "Cuke.Props.C03",
         "namespace": "Cuke.C03",
-        "families": [("sched.run", 1000, 40000), ("sched.lazy", 600, 30000)],
-        "segments": {"sched.run": [3, 5, 2, 4, 7]},
+        "families": [("sched.run", 1000, 40000), ("sched.lazy", 600, 30000), ("sched.custom", 400, 15000)],
+        "segments": {"sched.run": [3, 5, 2, 4, 7], "sched.mon": [7]},
         "segment_names": ['B', 'I', 'R', 'FF', 'c03'],
-        "modelled_not_verified": ["futures crate: FuturesUnordered, mpsc channels, join/select (the plumbing is checked by comparing sent and received event sequences)", "the async executor (hand-polled by the harness) and Instant / thread::sleep (clock readings are environment inputs of the model)", "HashMap iteration order at finish_all (model: any order inside the rule group and the feature group)"],
+        "modelled_not_verified": ["futures crate: FuturesUnordered, mpsc channels, join/select (the plumbing is checked by comparing sent and received event sequences)", "the async executor (hand-polled by the harness) and Instant / thread::sleep (clock readings are environment inputs of the model)", "HashMap iteration order at finish_all (model: any order inside the rule group and the feature group)", "runs with a custom retry_options closure (scenarios that START with current != 0; family sched.custom) are judged by the stream monitor `framed` only: the scheduler model resolves retry options from tags"],
     },
     "C04": {
         "module": "Cuke.Props.C04",
         "namespace": "Cuke.C04",
-        "families": [("sched.run", 1000, 40000), ("sched.lazy", 600, 30000)],
-        "segments": {"sched.run": [5, 0, 2, 1, 8]},
+        "families": [("sched.run", 1000, 40000), ("sched.lazy", 600, 30000), ("sched.custom", 400, 15000)],
+        "segments": {"sched.run": [5, 0, 2, 1, 8], "sched.mon": [8]},
         "segment_names": ['I', 'Q', 'R', 'K', 'c04'],
         "modelled_not_verified": ["futures crate: FuturesUnordered, mpsc channels, join/select (the plumbing is checked by comparing sent and received event sequences)", "the async executor (hand-polled by the harness) and Instant / thread::sleep (clock readings are environment inputs of the model)", "HashMap iteration order at finish_all (model: any order inside the rule group and the feature group)", "fairness of the environment (every gate is eventually opened, sleeps end, the parser ends) is assumed for termination"],
     },
